@@ -89,10 +89,10 @@ def main():
                 t0 = time.time()
                 env = dict(os.environ, GOSYM_REPO=wt, GOSYM_OUT=outdir)
                 try:
-                    rc, o = sh("%s/bin/gosym check %s --tier quick" % (VERIF, prop), cwd=VERIF, timeout=2400, env=env)
+                    rc, o = sh("%s/bin/gosym check %s --tier quick" % (VERIF, prop), cwd=VERIF, timeout=int(os.environ.get("SEEDCHECK_TIMEOUT", "2400")), env=env)
                 except subprocess.TimeoutExpired:
                     sh("pkill -f 'gosym check %s'" % prop)
-                    rc, o = 124, "check timed out after 2400 s"
+                    rc, o = 124, "check timed out"
                 viol = [l for l in o.splitlines() if l.startswith("VIOLATION")]
                 res["check_exit"] = rc
                 res["check_wall_s"] = round(time.time() - t0, 1)
